@@ -491,5 +491,147 @@ theorem markWithPaths_unmarkDeepWithPaths (v : Value) (hwf : RTwf v.v) :
   have := gfact v.v v.ty [] (unmarkPaths v.ty [] v.v).2 hwf hpre
   simp only [unmarkDeepWithPaths, markWithPaths, this, Res.map]
 
+/-! ### `UnmarkDeepWithPaths` agrees with `UnmarkDeep` -/
+
+mutual
+/-- every map / object payload has a key for each member (as `VerifDump` prints them) -/
+def keysAligned : Payload → Bool
+  | .marked _ r => keysAligned r
+  | .seq vs | .sset _ vs => keysAlignedL vs
+  | .smap ks vs => ks.length == vs.length && keysAlignedL vs
+  | _ => true
+def keysAlignedL : List Payload → Bool
+  | [] => true
+  | v :: vs => keysAligned v && keysAlignedL vs
+end
+
+theorem keysAlignedL_mem : ∀ {vs : List Payload}, keysAlignedL vs = true → ∀ v ∈ vs, keysAligned v = true
+  | [], _, v, hv => by simp at hv
+  | w :: ws, h, v, hv => by
+    simp only [keysAlignedL, Bool.and_eq_true] at h
+    rcases List.mem_cons.mp hv with rfl | hv
+    · exact h.1
+    · exact keysAlignedL_mem h.2 v hv
+
+theorem setsCleanL_mem : ∀ {vs : List Payload}, Payload.setsCleanL vs = true → ∀ v ∈ vs, v.setsClean = true
+  | [], _, v, hv => by simp at hv
+  | w :: ws, h, v, hv => by
+    simp only [Payload.setsCleanL, Bool.and_eq_true] at h
+    rcases List.mem_cons.mp hv with rfl | hv
+    · exact h.1
+    · exact setsCleanL_mem h.2 v hv
+
+/-- the two facts for one subtree: the value is the deeply unmarked one, and the
+marks recorded are exactly the marks found at any depth -/
+def AgreeFact (p : Payload) : Prop := p.setsClean = true → keysAligned p = true → ∀ (t : Ty) (path : Path),
+  (unmarkPaths t path p).1 = p.stripMarks ∧
+  ∀ m, (∃ e ∈ (unmarkPaths t path p).2, m ∈ e.marks) ↔ m ∈ p.marksDeep
+
+theorem kidsU_agree (path : Path) : ∀ (ls : List (Ty × Step)) (vs : List Payload), (∀ v ∈ vs, AgreeFact v) →
+    Payload.setsCleanL vs = true → keysAlignedL vs = true → vs.length ≤ ls.length →
+    (kidsU path ls vs).1 = Payload.stripMarksL vs ∧
+    ∀ m, (∃ e ∈ (kidsU path ls vs).2, m ∈ e.marks) ↔ m ∈ Payload.marksDeepL vs
+  | _, [], _, _, _, _ => by
+    constructor
+    · cases ‹List (Ty × Step)› <;> simp [kidsU, Payload.stripMarksL]
+    · intro m; cases ‹List (Ty × Step)› <;> simp [kidsU, Payload.marksDeepL]
+  | [], _ :: _, _, _, _, hl => by simp at hl
+  | l :: ls, v :: vs, hA, hs, hk, hl => by
+    simp only [Payload.setsCleanL, Bool.and_eq_true] at hs
+    simp only [keysAlignedL, Bool.and_eq_true] at hk
+    obtain ⟨h1, h2⟩ := hA v (by simp) hs.1 hk.1 l.1 (path ++ [l.2])
+    obtain ⟨i1, i2⟩ := kidsU_agree path ls vs (fun w hw => hA w (by simp [hw])) hs.2 hk.2 (by simpa using hl)
+    constructor
+    · simp [kidsU, Payload.stripMarksL, h1, i1]
+    · intro m
+      simp only [kidsU, Payload.marksDeepL, mem_unionMarks, List.mem_append, ← h2 m, ← i2 m]
+      constructor
+      · rintro ⟨e, he | he, hm⟩
+        · exact .inl ⟨e, he, hm⟩
+        · exact .inr ⟨e, he, hm⟩
+      · rintro (⟨e, he, hm⟩ | ⟨e, he, hm⟩)
+        · exact ⟨e, .inl he, hm⟩
+        · exact ⟨e, .inr he, hm⟩
+
+theorem allLabels_length (e : Ty) : ∀ (n i : Nat), (allLabels e i n).length = n
+  | 0, _ => rfl
+  | n + 1, i => by simp [allLabels, allLabels_length e n (i + 1)]
+theorem zipLabels_length : ∀ (n : Nat) (es : List Ty) (i : Nat), (zipLabels es i n).length = n
+  | 0, _, _ => rfl
+  | n + 1, es, i => by simp [zipLabels, zipLabels_length n es.tail (i + 1)]
+theorem objLabels_length : ∀ (ks : List String) (ts : List Ty), (objLabels ts ks).length = ks.length
+  | [], _ => rfl
+  | k :: ks, ts => by simp [objLabels, objLabels_length ks ts.tail]
+
+theorem agree_of_depth : ∀ (n : Nat) (p : Payload), p.depth ≤ n → AgreeFact p
+  | 0, p, h => by cases p <;> simp [Payload.depth] at h
+  | n + 1, p, h => by
+    intro hs hk t path
+    have hA : ∀ (vs : List Payload), Payload.depthL vs ≤ n → ∀ v ∈ vs, AgreeFact v := fun vs hd v hv =>
+      agree_of_depth n v (by have := depth_le_of_mem hv; omega)
+    cases p with
+    | marked ms r =>
+      obtain ⟨h1, h2⟩ := agree_of_depth n r (by simp [Payload.depth] at h; omega)
+        (by simpa [Payload.setsClean] using hs) (by simpa [keysAligned] using hk) t path
+      constructor
+      · simp [unmarkPaths, Payload.stripMarks, h1]
+      · intro m
+        simp only [unmarkPaths, Payload.marksDeep, mem_unionMarks, List.mem_append, ← h2 m]
+        constructor
+        · rintro ⟨e, he | he, hm⟩
+          · split at he
+            · simp at he; subst he; exact .inl hm
+            · simp at he
+          · exact .inr ⟨e, he, hm⟩
+        · rintro (hm | ⟨e, he, hm⟩)
+          · have hl : ms.length > 0 := List.length_pos_iff.mpr (List.ne_nil_of_mem hm)
+            exact ⟨⟨path, ms⟩, .inl (by simp [hl]), hm⟩
+          · exact ⟨e, .inr he, hm⟩
+    | seq vs =>
+      have hd : Payload.depthL vs ≤ n := by simp [Payload.depth] at h; omega
+      have hs' : Payload.setsCleanL vs = true := by simpa [Payload.setsClean] using hs
+      have hk' : keysAlignedL vs = true := by simpa [keysAligned] using hk
+      simp only [unmarkPaths]
+      split
+      · rename_i es
+        simp only [unmarkPathsZip_eq, Payload.stripMarks, Payload.marksDeep]
+        obtain ⟨i1, i2⟩ := kidsU_agree path (zipLabels es 0 vs.length) vs (hA vs hd) hs' hk'
+          (by rw [zipLabels_length]; exact Nat.le_refl _)
+        exact ⟨by rw [i1], i2⟩
+      · simp only [unmarkPathsAll_eq, Payload.stripMarks, Payload.marksDeep]
+        obtain ⟨i1, i2⟩ := kidsU_agree path (allLabels (elemTy t) 0 vs.length) vs (hA vs hd) hs' hk'
+          (by rw [allLabels_length]; exact Nat.le_refl _)
+        exact ⟨by rw [i1], i2⟩
+    | smap ks vs =>
+      have hd : Payload.depthL vs ≤ n := by simp [Payload.depth] at h; omega
+      have hs' : Payload.setsCleanL vs = true := by simpa [Payload.setsClean] using hs
+      simp only [keysAligned, Bool.and_eq_true, beq_iff_eq] at hk
+      simp only [unmarkPaths]
+      split
+      · rename_i ns ts os
+        simp only [unmarkPathsObj_eq, Payload.stripMarks, Payload.marksDeep]
+        obtain ⟨i1, i2⟩ := kidsU_agree path (objLabels ts ks) vs (hA vs hd) hs' hk.2
+          (by rw [objLabels_length, hk.1]; exact Nat.le_refl _)
+        exact ⟨by rw [i1], i2⟩
+      · simp only [unmarkPathsMap_eq, Payload.stripMarks, Payload.marksDeep]
+        obtain ⟨i1, i2⟩ := kidsU_agree path (mapLabels (elemTy t) ks) vs (hA vs hd) hs' hk.2
+          (by rw [mapLabels, List.length_map, hk.1]; exact Nat.le_refl _)
+        exact ⟨by rw [i1], i2⟩
+    | sset ids vs =>
+      have hc : Payload.containsMarkedL vs = false := by simpa [Payload.setsClean] using hs
+      constructor
+      · simp [unmarkPaths, Payload.stripMarks, Payload.stripMarksL_of_clean vs hc]
+      · intro m
+        simp [unmarkPaths, Payload.marksDeep, Payload.marksDeepL_of_not_containsMarkedL vs hc]
+    | null | unk _ | b _ | n _ | s _ | caps | bad _ => simp [unmarkPaths, Payload.stripMarks, Payload.marksDeep]
+
+/-- `UnmarkDeepWithPaths` returns the value `UnmarkDeep` returns, and the marks of
+its records are, together, exactly the marks `UnmarkDeep` returns -/
+theorem unmarkDeepWithPaths_agrees (v : Value) (hs : v.v.setsClean = true) (hk : keysAligned v.v = true) :
+    v.unmarkDeepWithPaths.1 = v.unmarkDeepPair.1 ∧
+    ∀ m, (∃ e ∈ v.unmarkDeepWithPaths.2, m ∈ e.marks) ↔ m ∈ v.unmarkDeepPair.2 := by
+  obtain ⟨h1, h2⟩ := agree_of_depth v.v.depth v.v (Nat.le_refl _) hs hk v.ty []
+  exact ⟨by simp [unmarkDeepWithPaths, unmarkDeepPair, unmarkDeep, h1], h2⟩
+
 end Value
 end CtyModel
